@@ -6,10 +6,10 @@ import os
 import random
 import shutil
 
-from . import core, si, sysgen, trajgen, engine_build, child, fingerprint, dictgen, translate_schemas
+from . import core, si, sysgen, trajgen, engine_build, child, fingerprint, dictgen, translate_schemas, files
 from .core import g_float, g_list, g_bool, g_codepoints
 
-IMPORTS = "Units ReactionText ObjDict AcceptC04 AcceptC12"
+IMPORTS = "Units ReactionText ObjDict AcceptC04 Files AcceptC12"
 
 # the key aliases each reader accepts (first = the key the writers use): read from /repo's current source by the translator
 try:
@@ -240,6 +240,30 @@ def observe(c):
                     dm2 = dict(dm, network=os.path.join(scratch, "sub", "net.json"))
                     json.dump(dm2, open(os.path.join(scratch, "system_abs.json"), "w", encoding="utf-8"))
                     attempt("multi_file_absolute_path", lambda: load(os.path.join(scratch, "system_abs.json")))
+                if kind == "script":
+                    # nested multi-file layout: the script refers to a system file in another directory, which refers to its own
+                    # network / space / state / chemostats files relative to *itself* (a grid space keeps its environments in a text
+                    # file next to the space file); each reference is resolved against the file that holds it
+                    import numpy as np
+                    ds = d1["system"]
+                    os.makedirs(os.path.join(scratch, "model", "parts"))
+                    json.dump(ds["network"], open(os.path.join(scratch, "model", "net.json"), "w", encoding="utf-8"))
+                    dsp = copy.deepcopy(ds["space"])
+                    if isinstance(dsp.get("cell_env"), list):
+                        with open(os.path.join(scratch, "model", "parts", "env.txt"), "w") as f:
+                            f.write(", ".join(str(int(v)) for v in dsp["cell_env"]))
+                        dsp["cell_env"] = "env.txt"
+                    json.dump(dsp, open(os.path.join(scratch, "model", "parts", "sp.json"), "w", encoding="utf-8"))
+                    np.save(os.path.join(scratch, "model", "state.npy"), np.array(ds["state"]["value"], dtype=float))
+                    with open(os.path.join(scratch, "model", "parts", "chem.txt"), "w") as f:
+                        f.write(" ".join(str(int(v)) for v in ds["chemostats"]))
+                    dm = {"units": ds["units"], "network": "net.json", "space": "parts/sp.json",
+                          "state": {"value": "state.npy", "units": ds["state"]["units"]}, "chemostats": "parts/chem.txt"}
+                    json.dump(dm, open(os.path.join(scratch, "model", "system.json"), "w", encoding="utf-8"))
+                    dscr = dict(d1, system="model/system.json")
+                    json.dump(dscr, open(os.path.join(scratch, "script_nested.json"), "w", encoding="utf-8"))
+                    attempt("nested_files_relative_paths", lambda: load(os.path.join(scratch, "script_nested.json")))
+                    attempt("nested_files_base_path", lambda: from_dict(copy.deepcopy(dscr), base_path=scratch))
         path = os.path.join(scratch, "obj.json")
 
         def via_file():
@@ -1094,6 +1118,19 @@ def _py_system(strengths, U, sc):
                               state=state, chemostats=list(sc["chs"]), units_system=sysgen.py_sys(U, sc["units"]))
 
 
+def py_trajectory(strengths, U, ro, c):
+    s = c["script"]
+    kw = {} if s["tmax"] is None else {"t_max": _qtext(s["tmax"])}
+    script = strengths.RDScript(system=_py_system(strengths, U, s["system"]),
+                                t_sample=U.UnitArray(list(s["ts"]), U.Units(sysgen.py_sys(U, s["ts_units"]), U.UnitsDimensions(time=1))),
+                                time_step=_qtext(s["dt"]), sampling_policy=s["policy"], sampling_interval=_qtext(s["interval"]),
+                                rng_seed=s["seed"], init_state_processing=s["init"], units_system=sysgen.py_sys(U, s["units"]), **kw)
+    return ro.RDTrajectory(data=U.UnitArray(list(c["data"]), U.Units(sysgen.py_sys(U, c["data_units"]), U.UnitsDimensions(quantity=1))),
+                           t_sample=U.UnitArray(list(c["t"]), U.Units(sysgen.py_sys(U, c["t_units"]), U.UnitsDimensions(time=1))),
+                           system=_py_system(strengths, U, c["system"]), script=script, engine_description=c["descr"], engine_option=c["option"],
+                           cgmap=c["cgmap"])
+
+
 def observe_trajectory(c):
     import strengths
     import strengths.rdoutput as ro
@@ -1103,16 +1140,7 @@ def observe_trajectory(c):
     os.makedirs(scratch)
     try:
         try:
-            s = c["script"]
-            kw = {} if s["tmax"] is None else {"t_max": _qtext(s["tmax"])}
-            script = strengths.RDScript(system=_py_system(strengths, U, s["system"]),
-                                        t_sample=U.UnitArray(list(s["ts"]), U.Units(sysgen.py_sys(U, s["ts_units"]), U.UnitsDimensions(time=1))),
-                                        time_step=_qtext(s["dt"]), sampling_policy=s["policy"], sampling_interval=_qtext(s["interval"]),
-                                        rng_seed=s["seed"], init_state_processing=s["init"], units_system=sysgen.py_sys(U, s["units"]), **kw)
-            tr = ro.RDTrajectory(data=U.UnitArray(list(c["data"]), U.Units(sysgen.py_sys(U, c["data_units"]), U.UnitsDimensions(quantity=1))),
-                                 t_sample=U.UnitArray(list(c["t"]), U.Units(sysgen.py_sys(U, c["t_units"]), U.UnitsDimensions(time=1))),
-                                 system=_py_system(strengths, U, c["system"]), script=script, engine_description=c["descr"], engine_option=c["option"],
-                                 cgmap=c["cgmap"])
+            tr = py_trajectory(strengths, U, ro, c)
             p0 = os.path.join(scratch, "t0.json")
             ro.save_rdtrajectory(tr, p0, separate_data=False)
             written = json.load(open(p0, encoding="utf-8"))
@@ -1206,7 +1234,8 @@ def check(run):
                 "unit systems at every level, per-environment dictionaries, labelled and unlabelled reactions, empty sides: to_dict -> from_dict, "
                 "through JSON text, through save / load in a scratch directory, to_dict twice (stability), up to 6 randomly chosen key aliases "
                 "substituted anywhere in the nested dictionary, and for systems a multi-file layout (network in a sub-directory, space, state as "
-                ".npy, chemostats as text; relative and absolute paths). The physical content (every quantity in SI, labels, stoichiometry, "
+                ".npy, chemostats as text; relative and absolute paths), for scripts a nested layout (the script names a system file in another "
+                "directory, which names its own network / space / state / chemostats files, the grid space its environments file). The physical content (every quantity in SI, labels, stoichiometry, "
                 "geometry, flags, unit systems, sampling parameters, mode, seed, times, data) of each result is compared with the original's in "
                 "Coq. non-trivial = at least two round trips were possible")
     core.decide(run, items, IMPORTS, "accept_C12", oracle, shard=30)
@@ -1252,6 +1281,23 @@ def check(run):
         for label, _, w in it["obs"].get("variants", []):
             run.count("trajectory_variant:" + label.split(":")[0] + (":rejected" if w is None else ""))
     core.decide(run, titems, IMPORTS, "accept_C12_trajectory", oracle_species, shard=6)
+    # files: path helpers, text arrays, the two files of a saved trajectory (Model/Files.v, harness/files.py)
+    nf = 400 if run.tier == "quick" else 6000
+    fitems = files.path_items([files.make_path_case(rng) for _ in range(nf)])
+    for it in fitems:
+        c = it["case"]
+        run.count("path:" + ("absolute" if c["p"].startswith("/") else "empty" if not c["p"] else "relative")
+                  + (":has_extension" if it["obs"].get("have") else ""))
+        run.count("path_base:" + ("none" if c["base"] is None else "absolute" if c["base"].startswith("/") else "relative"))
+    core.decide(run, fitems, IMPORTS, "accept_C12_paths", files.oracle, shard=400)
+    xitems = files.text_items([files.make_text_case(rng) for _ in range(nf // 2)])
+    for it in xitems:
+        run.count("textarray:" + ("loaded:%d" % min(len(it["obs"]["loaded"]), 5) if it["obs"].get("loaded") is not None else "rejected"))
+    core.decide(run, xitems, IMPORTS, "accept_C12_textarray", files.oracle, shard=400)
+    jitems = files.traj_items([files.make_traj_case(rng, make_trajectory_case(rng)) for _ in range(nf // 8)])
+    for it in jitems:
+        run.count("trajfiles:" + ("absolute" if it["case"]["absolute"] else "relative") + (":json_given" if it["case"]["p"].endswith(".json") else ""))
+    core.decide(run, jitems, IMPORTS, "accept_C12_trajfiles", files.oracle, shard=100)
 
 
 def replay(run, payload):
@@ -1279,5 +1325,9 @@ def replay(run, payload):
         return
     if payload.get("correspondence") == "accept_C12_reaction":
         core.decide(run, reaction_items([payload["case"]]), IMPORTS, "accept_C12_reaction", oracle_species)
+        return
+    if payload.get("correspondence") in ("accept_C12_paths", "accept_C12_textarray", "accept_C12_trajfiles"):
+        f = {"accept_C12_paths": files.path_items, "accept_C12_textarray": files.text_items, "accept_C12_trajfiles": files.traj_items}[payload["correspondence"]]
+        core.decide(run, f([payload["case"]]), IMPORTS, payload["correspondence"], files.oracle)
         return
     core.decide(run, build_items([payload["case"]]), IMPORTS, "accept_C12", oracle)
